@@ -163,6 +163,28 @@ def _compare_text(label: str, got: str, want: str, where: dict, deferred: _Defer
     raise Violation(label, dict(where, difference=_text_diff(got, want)))
 
 
+class _no_external_tools:  # pylint: disable=invalid-name
+    """ while main.run_module is driven: a module that discards the saved results goes on to run its analysis,
+        which needs HMMER; the check never runs external binaries, whether or not the machine has them """
+    def __enter__(self) -> None:
+        from unittest import mock
+        from antismash.common import subprocessing
+        from antismash.common.hmm_rule_parser import cluster_prediction
+
+        def unavailable(*_args, **_kwargs):
+            raise RuntimeError("external tools are not available to this check")
+        self.patches = [mock.patch.object(subprocessing, "run_hmmscan", unavailable),
+                        mock.patch.object(subprocessing, "run_hmmsearch", unavailable),
+                        mock.patch.object(cluster_prediction, "run_hmmsearch", unavailable)]
+        for patch in self.patches:
+            patch.start()
+
+    def __exit__(self, *_exc) -> bool:
+        for patch in self.patches:
+            patch.stop()
+        return False
+
+
 def _refused(outcome: tuple) -> bool:
     return outcome[0] == "exc" or (outcome[0] == "ok" and outcome[1] is None)
 
@@ -291,7 +313,8 @@ def _rules_regenerate(level: str, data: dict, record, options) -> tuple:
             return hmm_detection.regenerate_previous_results(data, record, options)
         options.all_enabled_modules = [hmm_detection]
         module_results = {hmm_detection.__name__: data}
-        main.run_module(record, hmm_detection, options, module_results, {})
+        with _no_external_tools():
+            main.run_module(record, hmm_detection, options, module_results, {})
         return module_results.get(hmm_detection.__name__)
     return _guard(work)
 
@@ -704,7 +727,8 @@ def _check_sideload(spec: dict) -> dict:
                 return sideloader.regenerate_previous_results(data, fresh, options)
             options.all_enabled_modules = [sideloader]
             module_results = {sideloader.__name__: data}
-            main.run_module(fresh, sideloader, options, module_results, {})
+            with _no_external_tools():
+                main.run_module(fresh, sideloader, options, module_results, {})
             return module_results.get(sideloader.__name__)
         return _guard(work)
 
@@ -972,7 +996,8 @@ def _check_nrps(spec: dict) -> dict:
                 return nrps_pks_domains.regenerate_previous_results(data, fresh, options)
             options.all_enabled_modules = [nrps_pks_domains]
             module_results = {nrps_pks_domains.__name__: data}
-            main.run_module(fresh, nrps_pks_domains, options, module_results, {})
+            with _no_external_tools():
+                main.run_module(fresh, nrps_pks_domains, options, module_results, {})
             return module_results.get(nrps_pks_domains.__name__)
         return _guard(work)
 
@@ -1193,23 +1218,18 @@ def _check_hmmer(spec: dict) -> dict:
         return {"nontrivial": False, "classes": ["build_failed_" + made[1]]}
     original = made[1]
     model = _loads(_dumps(original.to_json()))          # what the current generation is expected to save
-    applied0 = None
-    snap0 = None
     classes: set = set()
     changed = False
 
     def apply(results, target) -> tuple:
         return _guard(lambda: results.add_to_record(target))[:2]
 
-    def effects(results) -> tuple:
-        target = _hmmer_record(spec, spec["rid"]) if results is not original else record
-        return apply(results, target), _guard(lambda: _snapshot(target))
-
-    applied0, snap0 = effects(original)
+    applied0 = apply(original, record)
+    snap0 = _guard(lambda: _snapshot(record))
     if _dumps(original.to_json()) != _dumps(model):
         raise Violation("json_identity", {"stage": "post", "step": -1})
-    current_text = _dumps(model)
-    generation = 0        # effects are only compared while the generation is the original one
+    text0 = _dumps(model)
+    current_text = text0
     for number, step in enumerate(spec["steps"]):
         level = step["level"]
         change = step.get("change")
@@ -1259,9 +1279,6 @@ def _check_hmmer(spec: dict) -> dict:
             if not isinstance(result[1], cls):
                 raise Violation("regenerate_type", dict(where, returned=type(result[1]).__name__))
             got = _loads(_dumps(result[1].to_json()))
-            if len(got["hits"]) != len(model["hits"]) or got["max evalue"] != model["max evalue"] \
-                    or got["min score"] != model["min score"]:
-                generation += 1
             model = _trimmed(model, got, max_evalue, min_score, where)
             current_text = _dumps(result[1].to_json())
             classes.add("narrower_refilter")
@@ -1274,7 +1291,8 @@ def _check_hmmer(spec: dict) -> dict:
                 return module.regenerate_previous_results(data, fresh, options)
             options.all_enabled_modules = [module]
             module_results = {module.__name__: data}
-            main.run_module(fresh, module, options, module_results, {})
+            with _no_external_tools():
+                main.run_module(fresh, module, options, module_results, {})
             return module_results.get(module.__name__)
         outcome = _guard(work)
         # what the module's own thresholds mean for the saved ones
@@ -1301,34 +1319,31 @@ def _check_hmmer(spec: dict) -> dict:
         text = _dumps(again.to_json())
         if level != "class" and saved_laxer:
             classes.add("saved_thresholds_laxer")
-            got = _loads(text)
-            if len(got["hits"]) != len(model["hits"]):
-                generation += 1
-            model = _trimmed(model, got, MODULE_MAX_EVALUE, MODULE_MIN_SCORE, where)
-            generation += 1 if generation == 0 and _dumps(model) != current_text else 0
+            model = _trimmed(model, _loads(text), MODULE_MAX_EVALUE, MODULE_MIN_SCORE, where)
         else:
             _compare_text("json_identity", text, current_text, dict(where, stage="pre"))
-        if generation == 0:
-            applied = apply(again, fresh)
-            if applied != applied0:
-                raise Violation("apply_outcome", dict(where, original=applied0, regenerated=applied))
-            snap = _guard(lambda: _snapshot(fresh))
-            if snap[0] != snap0[0]:
-                raise Violation("effects", dict(where, original=snap0[:2] if snap0[0] == "exc" else "ok",
-                                                regenerated=snap[:2] if snap[0] == "exc" else "ok"))
-            if snap[0] == "ok":
-                _compare_text("effects", snap[1], snap0[1], where)
-            _compare_text("json_identity", _dumps(again.to_json()), text, dict(where, stage="post"))
+        applied = apply(again, fresh)
+        snap = _guard(lambda: _snapshot(fresh))
+        if _dumps(model) == text0:
+            want_applied, want_snap = applied0, snap0
         else:
-            # a trimmed generation: its effects must be those of results built directly from the model
-            applied = apply(again, fresh)
+            # a trimmed generation: its effects must be those of results loaded directly from the expected JSON
+            classes.add("effects_of_trimmed_results")
             twin_record = _hmmer_record(spec, record_id)
             twin = _guard(lambda: cls.from_json(_loads(_dumps(model)), twin_record))
-            if twin[0] == "ok" and twin[1] is not None:
-                applied_twin = apply(twin[1], twin_record)
-                if applied != applied_twin:
-                    raise Violation("apply_outcome", dict(where, original=applied_twin, regenerated=applied))
-        current_text = _dumps(again.to_json())
+            if twin[0] != "ok" or twin[1] is None:
+                raise Violation("regenerate_failed", dict(where, outcome=twin[:2], stage="expected JSON"))
+            want_applied = apply(twin[1], twin_record)
+            want_snap = _guard(lambda: _snapshot(twin_record))
+        if applied != want_applied:
+            raise Violation("apply_outcome", dict(where, original=want_applied, regenerated=applied))
+        if snap[0] != want_snap[0]:
+            raise Violation("effects", dict(where, original=want_snap[:2] if want_snap[0] == "exc" else "ok",
+                                            regenerated=snap[:2] if snap[0] == "exc" else "ok"))
+        if snap[0] == "ok":
+            _compare_text("effects", snap[1], want_snap[1], where)
+        _compare_text("json_identity", _dumps(again.to_json()), text, dict(where, stage="post"))
+        current_text = text
     classes.add(f"steps_{len(spec['steps'])}")
     classes.add(f"tool_{tool}")
     classes.add(f"hits_{min(len(original.hits), 3)}")
